@@ -559,9 +559,14 @@ def r4(ctx) -> None:
     ctx.sites("C18-R4", "latest-lookups delegating with a stripped name", n, 2)
 
 
+def r3_forward(ctx) -> None:
+    """The overwrite decision the user made is the one every layer acts on."""
+    lib.check_option_forwarding(ctx, "C18-R3", ("allow_overwrite", "ignore_existing"), 8, prefixes=("glotaran/project/",))
+
+
 def check(ctx) -> None:
     for g in check.groups:
         g(ctx)
 
 
-check.groups = [r1, r2, r3, r4]
+check.groups = [r1, r2, r3, r4, r3_forward]
